@@ -1,6 +1,6 @@
 /- Line-protocol driver for the C13 model (see harness/c13.py for the request shapes). -/
 import PgModel.Json
-import PgModel.Hyper
+import PgModel.HyperSpec
 open Pg Pg.C13
 
 def numOfJ : J → Option Num
@@ -134,6 +134,8 @@ def handle (j : J) : J :=
       .obj [("spec", specToJ spec),
             ("size", match size with | some n => .int n | none => .null),
             ("count", .int (specT W t).length),
+            ("head_distinct", .bool (headDistinct W t)),
+            ("wf", .bool (wfT t)),
             ("dnas", .arr (ds.map (perDna W t))),
             ("values", .arr (vs.map (perValue W t)))]
     | _, _ => bad "dnas/values"
